@@ -45,7 +45,10 @@ def run(F, rep, tier):
     # "prints every error otherwise": the loader reads every file that is reachable, also through a file that did not parse
     import c12
     c12.visit_once(F, rep)
+    # .. and no two files share an id, or errors at equal positions in two files are taken for one
+    c12.file_ids_unique(F, rep)
     prelude_yields(F, rep)
+    emitter_has_no_errors_of_its_own(F, rep)
 
 
 def nonempty_errors(F, rep, rule="EXIT"):
@@ -527,3 +530,26 @@ def prelude_yields(F, rep, rule="NO-STD"):
            "an import that comes from the standard prelude gives way to a definition of the same name in the program" if aware else
            "resolve_global_variables treats the prelude's imports like the program's own: a program that defines `max`, `set`, "
            "`Maybe`, .. itself gets `Name collision` (reported inside `sylt standard library preamble`) unless --no-std is given", fn["sp"])
+
+
+def emitter_has_no_errors_of_its_own(F, rep, rule="ATOMIC"):
+    """`-o FILE` is written from a buffer after the emitter has finished; `-o -` streams.  The two agree - and a failed run leaves
+    nothing behind - only if the emitter cannot *decide* to fail once it has started writing: every error exit of lua::generate is
+    the propagation of a failed write (`?`), never an `Err` of its own making.  Whatever can be wrong with the program is found
+    by the passes in front of it."""
+    bad = []
+    n = 0
+    for fn in F.fns_in("sylt_compiler::lua::"):
+        for r in nodes(fn_body(fn), "Ret"):
+            n += 1
+            v = peel(r.get("e") or {})
+            if v.get("k") == "Call" and (callee(v) or "").endswith("Result::Err"):
+                # the desugaring of `?` also returns Err(From::from(e)): that one comes out of a Match on a Try
+                if v.get("from_try") or "from_residual" in pp(v) or "From::from" in pp(v):
+                    continue
+                bad.append((fn, r))
+    rep.ob(rule, "emitter-fails-only-when-a-write-fails", not bad,
+           "lua::generate has no error exit of its own making" if not bad else
+           "%s returns an error of its own making (`%s`) after output has started: with `-o -` everything emitted so far has already "
+           "reached stdout when the run fails, while `-o FILE` leaves FILE untouched - the two outputs differ and a failed run is not "
+           "all-or-nothing" % (last(bad[0][0]["_path"], 2), pp(bad[0][1])[:70]), line_of(bad[0][1]) if bad else None)
